@@ -27,6 +27,15 @@ W0 = [0.3, 1.0, 2.2, 0.5]  # non-initial start: uneven weights as they arise aft
 TOL = 1e-9
 
 
+def entries_for(wt):
+    """The orbital-relaxing entries re-solve the SCF from the density 2 C C^dagger of the orbitals they are GIVEN; for the
+    deliberately unnormalised trial that density is ~0, relaxation is then not the identity (whether 30 undamped
+    Roothaan steps from the core guess come back to 1e-9 depends on the system) and the single-step replay, which
+    relies on 'converged trial => relaxation is the identity', has no reference for them.  They are left out of the
+    alphabet of that one configuration (observed as a false alarm at VERIF_SEED=3)."""
+    return [e for e in ENTRIES if not (wt == "restricted-tinytrial" and e in ("ad", "ad_nosr"))]
+
+
 def configs(tier, seed):
     out = []
     # restricted-open: restricted walker container with an open-shell (2,1) UHF trial (the beta determinant is the
@@ -34,7 +43,7 @@ def configs(tier, seed):
     # restricted-tinytrial: the same RHF trial with unnormalised orbitals (x 1e-5): every overlap is ~1e-10, so anything
     # that treats the stored overlap on an absolute scale (floors, thresholds) makes it incoherent with the walker
     for wt in ("restricted", "unrestricted", "restricted-open", "restricted-tinytrial"):
-        for first in [(e, s) for e in ENTRIES for s in sorted(STRUCTS)]:
+        for first in [(e, s) for e in entries_for(wt) for s in sorted(STRUCTS)]:
             out.append(dict(wt=wt, first=list(first), seed=seed, tier=tier))
     return out
 
@@ -80,7 +89,7 @@ def job(cfg):
     B = samplers.build(sysd, container, NW, dt=DT, n_batch=1, trial_kind=("uhf" if wt == "restricted-open" else None),
                        mo_scale=(1.0e-5 if wt == "restricted-tinytrial" else 1.0))
     samps = {k: L["sampling"].sampler(ns, ne, nsr, 1) for k, (ns, ne, nsr) in STRUCTS.items()}
-    letters = [(e, s) for e in ENTRIES for s in sorted(STRUCTS)]
+    letters = [(e, s) for e in entries_for(wt) for s in sorted(STRUCTS)]
     first = tuple(cfg["first"])
     # BFS over words starting with `first`; a state is (word, stream) with the two executions' prop_data
     init = []
